@@ -152,7 +152,113 @@ def F12():
     return (r.accepts_input("aaa") == n.accepts_input("aaa"), f"reverse accepts 'aaa': {r.accepts_input('aaa')}")
 
 
-ALL = dict(F12=F12, F1=F1, F19=F19, F2=F2, F3=F3, F4=F4, F5=F5, F6=F6, F7=F7, F8=F8, F9=F9, F11=F11)
+def _raises(f, *classes):
+    try:
+        f()
+    except classes as e:
+        return True, f"raises {type(e).__name__}"
+    except Exception as e:  # noqa
+        return False, f"raises {type(e).__name__}: {e}"
+    return False, "accepted"
+
+
+def F12b():
+    n = NFA(states={0, 1, 2}, input_symbols={"a"}, transitions={0: {"": {1}}, 1: {"a": {1}}, 5: {"a": {2}}},
+            initial_state=0, final_states={1})
+    try:
+        r = n.eliminate_lambda()
+        r.validate()
+    except Exception as e:  # noqa
+        return (False, f"eliminate_lambda raised {type(e).__name__}")
+    return (r.accepts_input("aa") == n.accepts_input("aa"), "eliminate_lambda returns a valid NFA for the same language")
+
+
+def F20():
+    return _raises(lambda: GNFA(states={0, 1}, input_symbols={"a", "b"}, transitions={1: {0: None, 1: "a"}},
+                                initial_state=1, final_state=1), ex.InvalidStateError, ex.MissingStateError)
+
+
+def F21():
+    J = DFA(states={0}, input_symbols={"a"}, transitions={0: {}, -1: {"a": 0}}, initial_state=0, final_states={0},
+            allow_partial=True)
+    E = DFA.empty_language({"a"})
+    u = E.union(J)
+    return (not u.accepts_input("aa"), f"E.union(J) accepts 'aa': {u.accepts_input('aa')}")
+
+
+def F10a():
+    try:
+        d = DFA.from_suffix({"a", "b"}, "")
+    except Exception as e:  # noqa
+        return (False, f"from_suffix(Σ, '') raised {type(e).__name__}")
+    return (all(d.accepts_input(w) for w in ("", "a", "ab")), "from_suffix(Σ, '') accepts every string")
+
+
+def F10b():
+    d = DFA.from_substrings({"a", "b", "c"}, {"", "cab"}, contains=False, must_be_suffix=True)
+    return (not d.accepts_input("c"), f"accepts 'c': {d.accepts_input('c')}")
+
+
+def F22():
+    d = DFA.from_substrings({"a", "b"}, ["cc", "ab"])
+    return (not d.accepts_input("a") and d.accepts_input("ab"), f"accepts 'a': {d.accepts_input('a')}")
+
+
+def F27():
+    return _raises(lambda: DFA(states={None, 0}, input_symbols={"a"}, transitions={None: {"a": 0}, 0: {"a": None}},
+                               initial_state=0, final_states={None}), ex.InvalidStateError)
+
+
+def F28():
+    return _raises(lambda: NFA(states={0}, input_symbols={"", "a"}, transitions={0: {"a": {0}}}, initial_state=0,
+                               final_states={0}), ex.InvalidSymbolError)
+
+
+def F29():
+    return _raises(lambda: NPDA(states={0}, input_symbols={"a"}, stack_symbols={"", "Z"},
+                                transitions={0: {"a": {"": {(0, "Z")}}}}, initial_state=0, initial_stack_symbol="Z",
+                                final_states={0}, acceptance_mode="final_state"), ex.InvalidSymbolError)
+
+
+def F30():
+    moves = [["1", "R"]]
+    m = MNTM(states={"q0", "q1"}, input_symbols={"1"}, tape_symbols={"1", "#"}, n_tapes=1,
+             transitions={"q0": {("1",): [("q1", moves)]}}, initial_state="q0", blank_symbol="#", final_states={"q1"})
+    moves[0][1] = "L"
+    stored = m.transitions["q0"][("1",)][0][1][0][1]
+    return (stored == "R", f"stored direction after mutating the argument: {stored}")
+
+
+def F15():
+    a = DFA.of_length({"a"}, min_length=3, max_length=1)
+    b = DFA.of_length({"a", "b"}, min_length=2, max_length=3, symbols_to_count={"c"})
+    return (len(a.states) == 1 and len(b.states) == 1, f"{len(a.states)} and {len(b.states)} states (minimal: 1 and 1)")
+
+
+def F33():
+    return _raises(lambda: DFA(states={0, 1}, input_symbols={"a"}, transitions={0: {"a": 1}, 1: {"a": 1}, None: {"a": 0}},
+                               initial_state=0, final_states={1}), ex.InvalidStateError)
+
+
+def F36():
+    from collections import defaultdict
+    import automata.base.config as cfg
+    cfg.allow_mutable_automata = True
+    try:
+        t = defaultdict(dict, {"q0": defaultdict(list, {("1",): [("q1", (("1", "R"),))]})})
+        m = MNTM(states={"q0", "q1"}, input_symbols={"1"}, tape_symbols={"1", "."}, n_tapes=1, transitions=t,
+                 initial_state="q0", blank_symbol=".", final_states={"q1"})
+        try:
+            list(m.read_input_as_ntm(""))
+        except ex.RejectionException:
+            pass
+        return (set(t["q0"]) == {("1",)}, f"rows of q0 after the read: {sorted(t['q0'])}")
+    finally:
+        cfg.allow_mutable_automata = False
+
+
+ALL = dict(F12=F12, F1=F1, F19=F19, F2=F2, F3=F3, F4=F4, F5=F5, F6=F6, F7=F7, F8=F8, F9=F9, F11=F11, F12b=F12b, F20=F20, F21=F21, F10a=F10a, F10b=F10b,
+           F22=F22, F27=F27, F28=F28, F29=F29, F30=F30, F15=F15, F33=F33, F36=F36)
 
 if __name__ == "__main__":
     names = sys.argv[1:] or list(ALL)
